@@ -1171,6 +1171,95 @@ OUTBOX_CASE = "obcfg * list (oop * list oout * osnap)"
 
 MQ_CASE = "mqcfg * list (op * list out * dsnap)"
 
+# --------------------------------------------------------------------------- DeadLetterQueue driven directly
+# (round-8 seed C19-14: capacity AND retention period; the mq family never sets a retention period)
+IMPORTS_D = "From HS Require Import Base.Prelude C19.DlqModel."
+DLQ_CASE = "option Z * option Z * list (dlop * dlobs)"
+
+
+def gen_dlq(rng):
+    cap = rng.choice([None, 1, 2, 2, 3, 4])
+    ret = rng.choice([None, 2, 5, 5, 10])
+    ops, t, mid = [], 0, 100
+    for _ in range(rng.randint(2, 16)):
+        k = rng.random()
+        if k < 0.8:
+            t += rng.choice([0, 0, 1, 1, 2, 3, 4, 6, 11])
+            ops.append(["add", t, mid])
+            mid += 1
+        elif k < 0.93:
+            ops.append(["pop"])
+        else:
+            ops.append(["clear"])
+    return dict(cap=cap, ret=ret, ops=ops)
+
+
+def impl_dlq(c):
+    from happysimulator.components.messaging import DeadLetterQueue
+    from happysimulator.components.messaging.message_queue import Message
+    from happysimulator.core.clock import Clock
+    from happysimulator.core.event import Event
+    from happysimulator.core.temporal import Instant
+    d = DeadLetterQueue("dlq", capacity=c["cap"], retention_period=None if c["ret"] is None else float(c["ret"]))
+    clk = Clock(Instant.Epoch)
+    d.set_clock(clk)
+    ids = {}
+    out = []
+    for o in c["ops"]:
+        if o[0] == "add":
+            clk.update(Instant.from_seconds(o[1]))
+            m = Message(id=f"m{o[2]}", payload=Event(time=clk.now, event_type="x", target=d), created_at=clk.now)
+            ids[m.id] = o[2]
+            r = 1 if d.add_message(m) else 0
+        elif o[0] == "pop":
+            m = d.pop()
+            r = -1 if m is None else ids[m.id]
+        else:
+            r = d.clear()
+        st = d.stats
+        out.append([r, [ids[m.id] for m in d.messages], st.messages_received, st.messages_discarded])
+    return out
+
+
+def encode_dlq(c, obs):
+    tr = []
+    for o, ob in zip(c["ops"], obs):
+        op = Ctor("DAdd", o[1], o[2]) if o[0] == "add" else Raw("DPop") if o[0] == "pop" else Raw("DClear")
+        tr.append((op, (ob[0], list(ob[1]), ob[2], ob[3])))
+    return term((opt(c["cap"]), opt(c["ret"]), tr))
+
+
+def oracle_dlq(c, obs):
+    """independent of the model: a message still within its retention period leaves the DLQ only through pop / clear, or
+    as the single oldest survivor pushed out by an arrival that finds the survivors filling the capacity."""
+    added = {}
+    held = []
+    for k, (o, ob) in enumerate(zip(c["ops"], obs)):
+        now_held = list(ob[1])
+        if o[0] == "add":
+            now = o[1]
+            added[o[2]] = now
+            live = [m for m in held if c["ret"] is None or not (now - added[m] > c["ret"])]
+            lost_live = [m for m in live if m not in now_held]
+            if len(lost_live) > 1 or (lost_live and not (c["cap"] is not None and len(live) >= c["cap"])):
+                return [dict(clause="a dead-lettered message within its retention period is not dropped while the dead-letter queue has room",
+                             step=k, lost=lost_live, live=live, cap=c["cap"])]
+            if lost_live and lost_live != live[:1]:
+                return [dict(clause="a full dead-letter queue pushes out its oldest message", step=k, lost=lost_live, live=live)]
+            if o[2] not in now_held:
+                return [dict(clause="a dead-lettered message is stored", step=k)]
+            if c["cap"] is not None and c["cap"] >= 1 and len(now_held) > c["cap"]:
+                return [dict(clause="the dead-letter queue never holds more than its capacity", step=k, held=now_held)]
+        elif o[0] == "pop":
+            if (held and (ob[0] != held[0] or now_held != held[1:])) or (not held and ob[0] != -1):
+                return [dict(clause="pop takes the oldest dead-lettered message", step=k)]
+        else:
+            if now_held or ob[0] != len(held):
+                return [dict(clause="clear empties the dead-letter queue and reports how many it removed", step=k)]
+        held = now_held
+    return []
+
+
 FAMILIES = [
     Family("mq", IMPORTS, "ok_mq", MQ_CASE, gen_mq, impl_mq, encode_mq, oracle_mq, nontrivial_mq, attribute_mq,
            parallel=False, describe=describe_mq),
@@ -1183,6 +1272,9 @@ FAMILIES = [
     Family("outbox", IMPORTS_O, "ok_outbox", OUTBOX_CASE, gen_outbox, impl_outbox, encode_outbox, oracle_outbox,
            lambda c, o: any(e["op"][0] == "OPollResume" for e in o["trace"]), parallel=False,
            describe=lambda c: f"batch={c['batch']},lat={c['latency']}"),
+    Family("dlq", IMPORTS_D, "ok_dlq", DLQ_CASE, gen_dlq, impl_dlq, encode_dlq, oracle_dlq,
+           lambda c, o: c["cap"] is not None and c["ret"] is not None and o[-1][3] > 0, parallel=False,
+           describe=lambda c: f"cap={c['cap']},ret={c['ret']}"),
 ]
 
 TRUSTED = [
@@ -1197,10 +1289,10 @@ TRUSTED = [
 def run(ctx):
     ctx.prove(["C19/Model.v", "C19/MQ.v", "C19/MQOrder.v", "C19/TopicModel.v", "C19/Topic.v",
                "C19/StreamModel.v", "C19/Assign.v", "C19/Stream.v",
-               "C19/OutboxModel.v", "C19/Outbox.v", "C19/Props.v"], allowed_axioms=(), trusted_base=TRUSTED)
+               "C19/OutboxModel.v", "C19/Outbox.v", "C19/DlqModel.v", "C19/Dlq.v", "C19/Props.v"], allowed_axioms=(), trusted_base=TRUSTED)
     ctx.coq_cases = lambda tag, imports, ok_fn, case_type, cases: coq.eval_cases(
         f"{ctx.pid}_{tag}", imports, ok_fn, case_type, cases, shard=min(100, max(30, len(cases) // 10 + 1)), workers=10)
-    counts = {"mq": ctx.n(90, 800), "topic": ctx.n(60, 500), "stream": ctx.n(90, 800), "outbox": ctx.n(50, 400)}
+    counts = {"mq": ctx.n(90, 800), "topic": ctx.n(60, 500), "stream": ctx.n(90, 800), "outbox": ctx.n(50, 400), "dlq": ctx.n(150, 1200)}
     stats = [run_family(ctx, fam, counts[fam.name]) for fam in FAMILIES]
     merge_stats(ctx, stats, "scripted scenarios in a real Simulation; non-trivial = at least one completed delivery and one ack/reject/timeout; distinct by JSON of the input")
     ctx.finish_obligations()
